@@ -203,6 +203,23 @@ pub fn build_guest_tuned(e: &mut Ent, tune: Option<&Tune>) -> Guest {
             emit(&mut c, Insn::Mulxu { sz: Sz::B, s: 14, d: 6 });
         }
     }
+    // a burst of messages as the very last thing the program does: a port (all bits outputs) toggled n
+    // times, one ioport message each - whatever is still queued when the run ends must not be lost
+    if e.chance(1, 4) {
+        features.push("message burst right before the end");
+        let p = 1 + e.below(11);
+        let n = e.pick(&[3u32, 16, 64, 200, 255]);
+        emit(&mut c, Insn::MovImm { sz: Sz::B, imm: 0xff, d: 14 });
+        emit(&mut c, Insn::Store { sz: Sz::B, s: 14, ea: Ea::A24(0xfee000 + p - 1) });
+        emit(&mut c, Insn::MovImm { sz: Sz::B, imm: e.u8() as u32, d: 14 });
+        emit(&mut c, Insn::MovImm { sz: Sz::B, imm: n, d: 13 });
+        let top = c.len();
+        emit(&mut c, Insn::Un { op: UnOp::Not, sz: Sz::B, d: 14 });
+        emit(&mut c, Insn::Store { sz: Sz::B, s: 14, ea: Ea::A8((0xd0 + p - 1) as u8) });
+        emit(&mut c, Insn::Un { op: UnOp::Dec1, sz: Sz::B, d: 13 });
+        let disp = top as i32 - (c.len() as i32 + 2);
+        emit(&mut c, Insn::Bcc { cond: 6, disp, wide: false });
+    }
     // a failing instruction at the end of some programs
     let fails = tune.is_none() && e.chance(1, 6);
     if fails {
@@ -610,6 +627,61 @@ pub fn judge(g: &Guest, tag: &str) -> Result<(Final, BInfo), String> {
     Ok((fa, info))
 }
 
+/// One guest through the real release binary with `-m`: exit status and the exact stdout stream (console
+/// text + `msg: ` lines) must be what the in-process run produced.
+pub fn judge_real(bin: &std::path::PathBuf, g: &Guest, f: &Final, tag: &str) -> Result<Result<(), String>, String> {
+    use crate::engine::realbin::*;
+    let out = match run_stdout(bin, tag, &g.file, &g.args, std::time::Duration::from_secs(60)) {
+        Ok(o) => o,
+        Err(RealErr::Inconclusive(m)) => return Err(m),
+    };
+    let exp = expected_stdout(&f.msgs);
+    if f.result.is_ok() {
+        if out.status != Some(0) {
+            return Ok(Err(format!("real binary: the program runs to its exit address, the process ended with status {:?}; stderr: {}", out.status, out.stderr.lines().last().unwrap_or(""))));
+        }
+    } else if out.status == Some(0) {
+        return Ok(Err("real binary: the program contains a failing instruction, the process reported success (exit status 0)".to_string()));
+    }
+    if out.stdout != exp {
+        let i = out.stdout.iter().zip(exp.iter()).position(|(a, b)| a != b).unwrap_or(out.stdout.len().min(exp.len()));
+        let ctx = |v: &[u8]| String::from_utf8_lossy(&v[i.saturating_sub(40)..(i + 60).min(v.len())]).to_string();
+        return Ok(Err(format!("real binary: stdout of -m differs from the message sequence of the run at byte {} ({} vs {} bytes): observed ..{:?}.. expected ..{:?}..", i, out.stdout.len(), exp.len(), ctx(&out.stdout), ctx(&exp))));
+    }
+    Ok(Ok(()))
+}
+
+fn real_phase(ctx: &Ctx, guests: &[(Guest, Final)]) -> Stats {
+    let Some(bin) = crate::engine::realbin::real_binary() else {
+        let mut st = Stats::new();
+        st.notes.push("real-binary phase skipped: H8VERIF_REALBIN is not set (run through ./check)".into());
+        return st;
+    };
+    par_shards(ctx, 16, |shard| {
+        let mut st = Stats::new();
+        for (i, (g, f)) in guests.iter().enumerate() {
+            if i % 16 != shard {
+                continue;
+            }
+            match judge_real(&bin, g, f, &format!("c13-{}-{}", shard, i)) {
+                Ok(Ok(())) => {
+                    st.evaluations += 1;
+                    st.class("real binary (-m): exit status and stdout stream equal the in-process run");
+                    if f.result.is_err() {
+                        st.class("real binary: failing program -> non-zero exit status");
+                    }
+                }
+                Ok(Err(m)) => {
+                    st.fail(Failure { signature: format!("run loop | {}", fail_field(&m.replace(|c: char| c.is_ascii_digit(), ""))), detail: m.chars().take(900).collect(), case: guest_json(g) });
+                    break;
+                }
+                Err(m) => st.notes.push(format!("real-binary run inconclusive: {}", m)),
+            }
+        }
+        st
+    })
+}
+
 fn digest(f: &Final, cpu: &Cpu) -> u64 {
     use std::hash::{Hash, Hasher};
     let mut h = std::collections::hash_map::DefaultHasher::new();
@@ -637,7 +709,19 @@ pub fn run(ctx: &Ctx) -> i32 {
         let (Some(file), Some(args)) = (case.get("file").and_then(|f| f.as_str()).and_then(unhex), case.get("args").and_then(|a| a.as_str())) else { return 2 };
         let g = Guest { file, args: args.to_string(), fails: case.get("fails").and_then(|f| f.as_bool()).unwrap_or(false), features: vec![], start_total: case.get("start_total").and_then(|f| f.as_u64()).unwrap_or(0) };
         let quiet = Redirect::start(false);
-        let r = judge(&g, "replay");
+        let mut r = judge(&g, "replay").map(|_| ());
+        if r.is_ok() && g.start_total == 0 {
+            if let (Some(bin), Ok((_, f))) = (crate::engine::realbin::real_binary(), run_a(&g, "replay-real")) {
+                match judge_real(&bin, &g, &f, "replay") {
+                    Ok(x) => r = x,
+                    Err(m) => {
+                        drop(quiet);
+                        eprintln!("inconclusive: {}", m);
+                        return 2;
+                    }
+                }
+            }
+        }
         drop(quiet);
         return match r {
             Ok(_) => {
@@ -658,7 +742,7 @@ pub fn run(ctx: &Ctx) -> i32 {
     let nshards = 32usize;
     let quiet = Redirect::start(false);
     // phase 1: every program through the run loop and through the stepped accounting
-    let collected: std::sync::Mutex<Vec<(Guest, u64)>> = std::sync::Mutex::new(vec![]);
+    let collected: std::sync::Mutex<Vec<(Guest, u64, Final)>> = std::sync::Mutex::new(vec![]);
     let mut stats = par_shards(ctx, nshards, |shard| {
         let stats = std::cell::RefCell::new(Stats::new());
         let ent = entropy_n(500);
@@ -702,7 +786,7 @@ pub fn run(ctx: &Ctx) -> i32 {
                         // remember some for the determinism phase
                         if kc.get() % 3 == 1 {
                             if let Ok((ma, f2)) = run_a(&g, &format!("{}d", tag)) {
-                                collected.lock().unwrap().push((g.clone(), digest(&f2, &ma.cpu)));
+                                collected.lock().unwrap().push((g.clone(), digest(&f2, &ma.cpu), f2.clone()));
                                 if f2 != fa {
                                     st.fail(Failure { signature: "run loop | two runs differ".into(), detail: format!("two runs of the same program differ: {:?} vs {:?}", (f2.total, f2.msgs.len()), (fa.total, fa.msgs.len())), case: guest_json(&g) });
                                 }
@@ -748,7 +832,7 @@ pub fn run(ctx: &Ctx) -> i32 {
         }
         let r = par_shards(ctx, 8, |shard| {
             let mut st = Stats::new();
-            for (i, (g, d)) in guests.iter().enumerate() {
+            for (i, (g, d, _)) in guests.iter().enumerate() {
                 if i % 8 != shard {
                     continue;
                 }
@@ -773,6 +857,9 @@ pub fn run(ctx: &Ctx) -> i32 {
         r
     });
     stats.merge(dstats);
+    // phase 3: the repository's real binary (src/main.rs: argument parsing, settings, load, run().unwrap())
+    let real: Vec<(Guest, Final)> = guests.iter().filter(|(g, _, _)| g.start_total == 0).map(|(g, _, f)| (g.clone(), f.clone())).take(tier.pick(32, 600) as usize).collect();
+    stats.merge(real_phase(ctx, &real));
     drop(quiet);
     let _ = std::fs::remove_dir(std::env::temp_dir().join(format!("h8verif-{}", std::process::id())));
     let rule = "cases = proptest-generated terminating guest programs (straight-line arithmetic, memory accesses, calls, counted delay loops sized to land on both sides of 1-3 sync thresholds, port direction/data writes, console output through the MES write call, timer start with an optional interrupt handler installed through set_handler, optional slow-bus prologue, optionally a failing instruction at the end) wrapped into an ELF whose ___exit is the program's end, with generated argument strings. Drivers: (A) elf::load + the real Cpu::run() in-process (real pacing left in) with all messages captured; (B) the statement's accounting re-implemented over single steps (poll, step, total += 3 x charge, sync when floor(total/2,000,000) grows, peripherals fed the same amount) in lockstep with (C) the reference model. Oracle: run() succeeds iff the program has no failing instruction and then PC == exit address; final registers, CCR, all five memory regions (incl. timer and port registers = what peripherals saw), cumulative state count and the exact message sequence (ioport/stdout/sync, order and stamps) of A equal B; a third of the programs is run again, and again while all cores are kept busy: byte-identical results. Non-trivial = total crosses >= 1 sync threshold, or emits an ioport/stdout message, or contains a failing instruction; distinct by ELF contents.";
